@@ -159,6 +159,11 @@ def walk(fn, valuation: Dict[str, bool], norm: Callable[[ast.AST], str], max_ste
             elif isinstance(a, ast.AugAssign) and isinstance(a.target, ast.Name):
                 cur = env.get(a.target.id, ast.Name(id=a.target.id, ctx=ast.Load()))
                 env[a.target.id] = ast.BinOp(left=clone(cur), op=a.op, right=_Sub(env).visit(clone(a.value)))
+            elif isinstance(a, ast.Expr) and isinstance(a.value, ast.Call) and isinstance(a.value.func, ast.Name) and a.value.func.id == "setattr" \
+                    and len(a.value.args) == 3 and isinstance(a.value.args[0], ast.Name) \
+                    and isinstance(_Sub(env).visit(clone(a.value.args[1])), ast.Constant) and isinstance(_Sub(env).visit(clone(a.value.args[1])).value, str):
+                # setattr(obj, "name", v) with a literal name is the attribute store obj.name = v
+                env[f"{a.value.args[0].id}.{_Sub(env).visit(clone(a.value.args[1])).value}"] = _fold_ifexp(_Sub(env).visit(clone(a.value.args[2])), valuation, norm)
             elif isinstance(a, ast.Expr) and isinstance(a.value, ast.Call):
                 # a call made for its effect: remembered in order (bindings applied), for rules about which procedures run on a path
                 env.setdefault("<calls>", ast.List(elts=[], ctx=ast.Load())).elts.append(_Sub({k_: v_ for k_, v_ in env.items() if k_ != "<calls>"}).visit(clone(a.value)))
